@@ -174,7 +174,7 @@ def norm(obj):
 
 
 def rest_of_run(run: Run, from_tick: int):
-    return norm([{k: ob.get(k) for k in ("n", "state", "flags", "cmd", "hw", "mstate", "instances", "registry")}
+    return norm([{k: ob.get(k) for k in ("n", "state", "flags", "err", "cmd", "hw", "mstate", "instances", "registry")}
                  for ob in run.obs[from_tick:]] + [run.marks()])
 
 
@@ -334,6 +334,28 @@ def explore_program(item):
         res["skipped"] = "never-quiescent"
     elif base.state() != "Running" or base.method_state()["failed"]:
         res["skipped"] = "method-error"       # a failing method pauses the run; C13 covers that
+    if res["skipped"] == "method-error" and q0 is not None:
+        # the run stands in its error state (paused, Method Status = Error): an edit that changes a started line must still be
+        # rejected without affecting the run - error state included.  (Accepted edits of a failed method are C13's business.)
+        ever = set()
+        for t in range(1, min(q0 + 3, horizon - SETTLE - 12) + 1):
+            ms = base.obs[t - 1]["mstate"]
+            ever |= (set(ms["started"]) | set(ms["executed"]) | set(ms["failed"])) - {"root"}
+            for kind, new_lines, expect in make_edits(lines0, ms, 1, frozenset(ever)):
+                if expect != "reject":
+                    continue
+                v, status, q = check_edit(lines0, {}, t, kind, new_lines, expect, horizon, base, {})
+                res["exec"] += 1
+                res["reject"] += 1
+                in_error = base.obs[t - 1]["err"][0]
+                res["reject_in_error_state"] = res.get("reject_in_error_state", 0) + int(in_error)
+                res["kinds"][kind.split(":")[0]] += 1
+                for sig, what in v:
+                    res["viol"].append((sig + (":run-in-error-state" if in_error else ""), what,
+                                        {"program": [c for _, c in lines0], "edits": [{"tick": t, "kind": kind, "lines": new_lines}]}))
+        base.cleanup()
+        res["kinds"] = dict(res["kinds"])
+        return res
     if res["skipped"]:
         base.cleanup()
         res["kinds"] = {}
@@ -404,6 +426,11 @@ def corpus(ctx):
     # openers with an empty body are silently re-nested by the parser (C17 finding): such texts do not mean what the
     # generator intends, so they are left out here
     items = [it for it in items if pgen.no_empty_openers(it[0])]
+    # methods with an instruction that fails (unknown instruction / UOD command that raises): rejected edits while the run
+    # stands in its error state
+    failing = [f for f in pgen.programs(["M", "W", "Bogus", "Boom"], 3, depth=0) if {"Bogus", "Boom"} & set(pgen.kinds_flat(f))]
+    items += [(f, H_QUICK, False) for f in failing]
+    bounds += "; <=3 stmts over {M,W,Bogus,Boom} with a failing instruction: rejected edits only"
     return items, bounds
 
 
@@ -417,6 +444,7 @@ def run(ctx):
     for it, r in zip(items, results):
         for k in ("exec", "compared", "unsettled", "reject", "nontrivial", "ticks"):
             tot[k] += r[k]
+        tot["reject_in_error_state"] += r.get("reject_in_error_state", 0)
         if r["skipped"]:
             skipped[r["skipped"]] += 1
         kinds.update(r["kinds"])
@@ -430,13 +458,14 @@ def run(ctx):
         evaluations=tot["exec"], distinct_nontrivial=tot["nontrivial"],
         programs=len(items), programs_skipped=dict(skipped), edit_points=tot["ticks"],
         compared_with_fresh_run=tot["compared"], rejected_edits_compared_tick_for_tick=tot["reject"],
+        rejected_edits_while_run_in_error_state=tot["reject_in_error_state"],
         unsettled_pairs_not_compared=tot["unsettled"], per_edit_kind=dict(kinds),
         rule="every (program, edit tick, edit kind[, second edit tick, kind]) is one execution on a fresh engine; "
              "non-trivial = the edit landed after at least one line had executed (or is a second edit)",
         samples=samples, exhaustive=True, bounds=bounds,
     )
     ctx.assumptions += ["X > 1 becomes true at tick 4 in every run", "Alarm and Hang excluded (time-dependent counts)",
-                        "programs whose unedited run ends in a method error are skipped here (C13)",
+                        "for programs whose unedited run ends in a method error only the rejected edits are explored (error state must survive them); accepted edits of a failed method: C13",
                         "edits start at tick 1: tick 0 executes Start, before that no run is active"]
 
 
